@@ -59,6 +59,8 @@ type Ctx struct {
 	storeDefs map[string]storeDef
 	nonnil   map[string]bool
 	caseCalls map[string][][2]Val
+	rel      *Rel   // mode R (relational) bookkeeping, nil otherwise
+	copyTag  string // suffix of the input heap names of the copy being executed
 }
 
 type State struct {
@@ -269,10 +271,12 @@ func (c *Ctx) initHeap() *State {
 			}
 			for k, srt := range c.pr.smtSorts(f.Type()) {
 				key := heapKey(sn, f.Name(), k)
-				name := "H0_" + sn + "_" + f.Name() + "_" + fmt.Sprint(k)
+				name := "H0_" + sn + "_" + f.Name() + "_" + fmt.Sprint(k) + c.copyTag
 				c.declare(name, "(Array Int "+srt+")")
 				st.heap[key] = name
-				c.heapKeys = append(c.heapKeys, key)
+				if _, dup := c.heapSort[key]; !dup {
+					c.heapKeys = append(c.heapKeys, key)
+				}
 				c.heapSort[key] = srt
 			}
 		}
@@ -290,6 +294,7 @@ type LoopInfo struct {
 	dec0    []string
 	hstate  *State
 	hreach  string
+	relKey  string
 }
 
 type Frame struct {
@@ -656,6 +661,9 @@ func (fr *Frame) run(st0 *State, reach0 string) {
 			st, reach = fr.enterLoop(li, st, reach)
 		}
 		fr.reach[b] = reach
+		if c.rel != nil && c.rel.inB() && fr.top {
+			c.rel.blockLemma(fr, b, reach)
+		}
 		fr.execBlock(b, st, reach)
 		fr.out[b] = st
 		// back edges
@@ -718,6 +726,7 @@ func (fr *Frame) enterLoop(li *LoopInfo, st *State, reach string) (*State, strin
 		hk = append(hk, k)
 	}
 	sort.Strings(hk)
+	relRefs := map[string][]string{}
 	for _, sf := range hk {
 		// pointwise when every write target is a loop-invariant reference
 		var refs []string
@@ -739,6 +748,11 @@ func (fr *Frame) enterLoop(li *LoopInfo, st *State, reach string) (*State, strin
 		for _, key := range c.heapKeys {
 			if !strings.HasPrefix(key, sf+".") {
 				continue
+			}
+			if pointwise && len(refs) <= 12 {
+				relRefs[sf] = refs
+			} else {
+				relRefs[sf] = nil
 			}
 			if pointwise && len(refs) <= 12 {
 				term := ns.heap[key]
@@ -769,6 +783,9 @@ func (fr *Frame) enterLoop(li *LoopInfo, st *State, reach string) (*State, strin
 			fr.unfoldHint(u, fr.invEnv(ns), reach)
 		}
 	}
+	if c.rel != nil {
+		c.rel.loopHead(fr, li, st, reach, ns, cellList, relRefs)
+	}
 	return ns, reach
 }
 
@@ -796,6 +813,9 @@ func (fr *Frame) backEdge(li *LoopInfo, st *State, cond string) {
 	fr.curLoop = li
 	defer func() { fr.curLoop = nil }()
 	lname := fmt.Sprintf("loop%d", li.ordinal)
+	if c.rel != nil {
+		c.rel.backEdge(fr, li, st, cond)
+	}
 	if li.lc == nil {
 		c.oblige(fr.oname(lname+"/decreases", "missing"), "decreases", fr.safetyTags, cond, "false", fr.c.pr.lineOf(li.header.Instrs[0].Pos()), "loop without contract")
 		return
@@ -1839,6 +1859,9 @@ func (c *Ctx) mapLookup(glob string, key Val) (string, string) {
 	if ascii {
 		q := c.fresh("qk")
 		c.assumeOnce(sImp(sNot(sEq(val, "0")), "(forall (("+q+" Int)) (! (=> (and (<= "+key.C[1]+" "+q+") (< "+q+" (+ "+key.C[1]+" "+key.C[2]+"))) (< (select "+key.C[0]+" "+q+") 128)) :pattern ((select "+key.C[0]+" "+q+"))))"))
+	}
+	if c.rel != nil {
+		c.rel.mapLookup(c, glob, key, val)
 	}
 	ok := sNot(sEq(val, "0"))
 	return val, ok
